@@ -399,6 +399,7 @@ def check(fx, rep, tier):
     rep.rule('R20.5', 'capacity-1 channel (overflow mode where the channel handles lag); set() stores and broadcasts')
     rep.rule('R20.6', 'the tokio and smol implementations satisfy the same obligations')
     rep.rule('R20.10', 'what poll_next polls is stored in the stream: no future is created and polled within one poll_next call (its waker registration would die with it)')
+    rep.rule('R20.11', 'all clones of a State share one channel: Clone opens no channel of its own')
     rep.rule('R20.9', 'the broadcast channel shared by all clones of a State is never closed explicitly: a subscription ends only when the state is gone')
     out = {}
     for cn in ('zlink_tokio', 'zlink_smol'):
@@ -421,6 +422,23 @@ def check(fx, rep, tier):
                             'exists, and values set afterwards are lost' % (body.path, d))
         rep.ok('R20.9', '%s|channel-never-closed-explicitly' % cn, 'zlink-%s/src/notified.rs' % cn.split('_')[1],
                'no code of the notified module closes the shared channel (%d close sites)' % n_close, nontrivial=(n_close == 0))
+    # R20.11 every handle of a State is the same state: Clone shares the channel (derived, or a clone of the sender), it does not open a new one -
+    # a clone with a channel of its own has its own subscribers and its own channel options (a second creation site that must repeat
+    # set_overflow / set_await_active exactly), and what is set through one handle never reaches the subscribers of the other
+    for cn in ('zlink_tokio', 'zlink_smol'):
+        crate = fx.crate(cn, 'full')
+        ncl = 0
+        for body in crate.bodies:
+            if body.in_test or 'notified' not in (body.file or body.path) or body.name != 'clone' or 'State' not in (body.impl_self or ''):
+                continue
+            ncl += 1
+            makers = [t['callee'].get('def') or t['callee'].get('name') for _, t in body.iter_terms('call')
+                      if t['callee'].get('name') in ('broadcast', 'channel', 'bounded', 'unbounded') and not (t['callee'].get('def') or '').endswith('::clone')]
+            rep.check(not makers, 'R20.11', '%s|%s|clone-shares-the-channel' % (cn, body.path), body.where(),
+                      'State::clone clones the handles of the existing channel',
+                      'State::clone opens a channel of its own (%s): the clone is another state with other subscribers and separately configured channel options - a value set through '
+                      'one handle is never seen by the subscribers of the other, and a missing option (await-active, overflow) makes set() on the clone wait or fail' % ', '.join(makers))
+        rep.ok('R20.11', '%s|clone-impls-enumerated' % cn, 'zlink-%s/src/notified.rs' % cn.split('_')[1], '%d Clone impl(s) of State examined' % ncl, nontrivial=False)
     a, b = out['zlink_tokio'], out['zlink_smol']
     same = a.get('continues') == b.get('continues') and a.get('capacity') == b.get('capacity') and a.get('subscribe') == b.get('subscribe')
     rep.check(same and bool(a.get('continues')), 'R20.6', 'tokio-vs-smol|agreement', 'zlink-tokio/src/notified.rs vs zlink-smol/src/notified.rs',
